@@ -70,6 +70,7 @@ impl Context {
     /// whether `new` passes the depth test specified by `self.depth_test`.
     /// If `self.depth_test` is `None`, always returns `true`.
     #[inline]
+    #[cfg_attr(kani, kani::ensures(|r: &bool| *r == verif_kani::spec_depth_pass(self.depth_test, new, curr)))]
     pub fn depth_test(&self, new: f32, curr: f32) -> bool {
         // Reverse comparison because we're comparing reciprocals
         self.depth_test
@@ -91,3 +92,7 @@ impl Default for Context {
         }
     }
 }
+
+#[cfg(kani)]
+#[path = "/verif/kani/ctx.rs"]
+pub(crate) mod verif_kani;
